@@ -143,6 +143,21 @@ def run_data(desc, ctx):
         ds = gen.make_dataset(rng, n_inputs=rng.choice([1, 1, 2]), fmt=rng.choice(["text", "nc"]), miss=rng.choice([0.0, 0.1, 0.25]),
                               max_t=6, max_l=5, hours=hours, sparse=0.0,
                               leadtime_pool=[0, 1, 12, 23, 24, 25, 36, 47, 48, 49, 72, 96, 240, 400, 23.5, 71.75])
+        if rng.random() < 0.35:
+            # dry spells: every observation (or forecast) of a whole time, lead time or location is exactly 0 - still cases
+            ctx.count("datasets_with_all_zero_slices")
+            for _z in range(rng.randint(1, 3)):
+                dim = rng.choice([0, 1, 2])
+                i0_ = ds["inputs"][0]
+                val = rng.choice([gen.fnum(int(x)) if dim == 0 else gen.fnum(x) for x in
+                                  (i0_["times"] if dim == 0 else i0_["leadtimes"] if dim == 1 else [l_[0] for l_ in i0_["locs"]])])
+                fld = rng.choice(["obs", "obs", "fcst", "both"])
+                for inp in ds["inputs"]:
+                    for k_, c_ in inp["cells"].items():
+                        if k_.split("|")[dim] == val:
+                            for f_ in (("obs", "fcst") if fld == "both" else (fld,)):
+                                if c_.get(f_) is not None:
+                                    c_[f_] = 0.0
         d = os.path.join(ctx.workdir, "d%d" % ci)
         os.makedirs(d, exist_ok=True)
         paths, _ = gen.materialize(ds, d, rng if rng.random() < 0.5 else None)
